@@ -288,6 +288,31 @@ def run_case(case):
                 COL.violation("C05.engines", "rev=True and rev=False give different counts", {"kw": kw})
             b = st.Binner(data)
             probe.attempt(b.dohist, rev=bool(case["sub"] % 2), calc_stats=bool(case["sub"] % 3), **kw)
+            # the same Binner is documented to be reusable: a history of further calls with other limits, with and
+            # without limits, other bin sizes / counts (each call judged by the wrapper against the object's data)
+            hr = np.random.default_rng([case["sub"], 77, int(eng)])
+            arr = np.asarray(data, dtype="f8")
+            lo, hi = float(arr.min()), float(arr.max())
+            for step in range(int(hr.integers(2, 5))):
+                k2 = {}
+                if hr.random() < .5 and hi > lo:
+                    k2["nbin"] = int(hr.integers(1, 9))
+                else:
+                    k2["binsize"] = float(hr.choice([0.25, 0.5, 1.0, 2.0, 4.0])) * (1.0 if hi - lo < 64 else 2.0 ** int(np.ceil(np.log2((hi - lo) / 64))))
+                if hr.random() < .4:
+                    k2["min"] = float(hr.choice(arr)) if hr.random() < .5 else lo - float(hr.uniform(0, 1))
+                if hr.random() < .4:
+                    k2["max"] = float(hr.choice(arr)) if hr.random() < .5 else hi + float(hr.uniform(0, 1))
+                if "min" in k2 and "max" in k2 and not (k2["max"] > k2["min"]):
+                    k2.pop("max")
+                if "nbin" in k2 and not (k2.get("max", hi) > k2.get("min", lo)):
+                    k2.pop("nbin")
+                    k2["binsize"] = 1.0
+                sel = arr[(arr >= k2.get("min", lo)) & (arr <= k2.get("max", hi))]
+                if sel.size == 0:
+                    continue
+                probe.attempt(b.dohist, rev=bool(hr.integers(0, 2)), calc_stats=bool(hr.integers(0, 2)), **k2)
+                COL.info["binner_reuse_calls"] = COL.info.get("binner_reuse_calls", 0) + 1
     finally:
         su.have_chist = True
     (rc, ec), (rp, ep) = res[True], res[False]
